@@ -81,7 +81,7 @@ def min_classes(tier):
 
 def oracle(line, impl_line):
     o = parse_out(impl_line)
-    if o is None or o[0] == [888888]:
+    if o is None or o[0] == [18446744073710440504]:
         return "connection task crashed or panicked"
     cfg, rscript, wscript, segs, scripts = C07.decode_case(line)
     head, cons, wlog, inv, shut = C07.parse_events(o)
